@@ -49,7 +49,7 @@ func genMeta(t *rapid.T) MetaCase {
 	n := rapid.IntRange(1, 4).Draw(t, "npeers")
 	honest := false
 	for i := 0; i < n; i++ {
-		p := MetaPeer{Mode: rapid.SampledFrom([]string{"honest", "honest", "garbage", "garbage", "wrong-total", "short-piece", "long-piece", "dup", "unrequested", "reject", "silent", "close"}).Draw(t, "mode")}
+		p := MetaPeer{Mode: rapid.SampledFrom([]string{"honest", "honest", "garbage", "garbage", "wrong-total", "short-piece", "long-piece", "dup", "unrequested", "swap-labels", "swap-labels", "reject", "silent", "close"}).Draw(t, "mode")}
 		p.SizeKind = rapid.SampledFrom([]string{"true", "true", "true", "plus1", "minus1", "huge", "over-max", "wrap32", "zero"}).Draw(t, "size")
 		p.DelayMs = rapid.SampledFrom([]int{0, 0, 5, 40}).Draw(t, "delay")
 		p.ConnectMs = rapid.SampledFrom([]int{0, 0, 20, 100}).Draw(t, "connect")
